@@ -110,7 +110,7 @@ class Check(object):
                 node = getattr(e, "node", None)
                 import ast as _ast
                 cls = getattr(getattr(e.exc, "cls", None), "name", "")
-                definite = cls in ("builtins.TypeError", "builtins.AttributeError", "builtins.NameError") \
+                definite = cls in ("builtins.TypeError", "builtins.AttributeError", "builtins.NameError", "builtins.ZeroDivisionError") \
                     and not isinstance(node, _ast.Raise)
                 if definite:
                     # not a 'raise' statement of the package but Python itself refusing an operation (wrong arity, a missing
@@ -118,7 +118,7 @@ class Check(object):
                     # entry point cannot deliver what the property describes
                     rule = "%s.X" % self.pid
                     if rule not in self.rule_desc:
-                        self.rule(rule, "the analysed entry point does not fail with a Python TypeError/AttributeError/NameError "
+                        self.rule(rule, "the analysed entry point does not fail with a Python TypeError/AttributeError/NameError/ZeroDivisionError (exactly zero divisor) "
                                         "on well-formed input", 0)
                     what = getattr(e.exc, "args", None)
                     self.ob(rule, "%s: runs without a Python %s" % (label, cls.split(".")[-1]), False,
